@@ -167,6 +167,23 @@ def check_dispatch(ctx, rule='TBL'):
                 name = kw if kw is not None else (pn[i] if i < len(pn) else None)
                 if name:
                     collect(cf, name, ctx.fold.func_env(cf))
+        if spec == 'ChunkParser._parse_meaningful' and not all(
+                env.get(nm) is not None and not is_unknown(env.get(nm)) for nm in ('s_desc_lays', 'tr_first_lays')):
+            # rewritten without the two named locals: every layout test (here or in the helpers that are
+            # handed the layout) must still use one of the two classes the walk distinguishes
+            if not tests:
+                ctx.undecided(rule, '_parse_meaningful: layout membership tests use the s_desc / tr_first layouts',
+                              'no `layout in <collection>` test found in the function or the helpers it hands the layout to')
+                continue
+            for node, coll, holder in tests:
+                n += 1
+                got = coll - {cl['copy_all']}
+                ctx.check(got in (cl['s_desc'], cl['tr_first']), rule,
+                          f"_parse_meaningful: `{norm(node)[:60]}` uses the s_desc or the tr_first layouts",
+                          detail_bad=f"collection {sorted(coll)} is neither {sorted(cl['s_desc'])} nor {sorted(cl['tr_first'])}: "
+                                     f"blocks are attached to the wrong side of their section / Twp/Rge",
+                          key=f"{rule}|_parse_meaningful|class|{','.join(sorted(coll))}", where=common.loc(holder, node))
+            continue
         if spec == 'ChunkParser._parse_meaningful':
             for nm, cls in (('s_desc_lays', 's_desc'), ('tr_first_lays', 'tr_first')):
                 v = env.get(nm)
